@@ -129,7 +129,7 @@ def average_coverage(
     if len(platforms) == 0:
         return float("nan")
 
-    total = sum([coverage(setmap, [p]) for p in platforms])
+    total = sum([coverage(setmap, [p]) for p in sorted(platforms)])
     return total / len(platforms)
 
 
@@ -143,11 +143,13 @@ def distance(setmap, p1, p2):
             total += count
     if total == 0:
         return float("nan")
+    # Count the lines first and divide once, so that the result does not
+    # depend on the order in which the sets are visited.
     d = 0
     for pset, count in setmap.items():
         if (p1 in pset) ^ (p2 in pset):
-            d += count / float(total)
-    return d
+            d += count
+    return d / float(total)
 
 
 def divergence(setmap):
@@ -155,7 +157,9 @@ def divergence(setmap):
     Compute code divergence as defined by Harrell and Kitson
     i.e. average of pair-wise distances between platform sets
     """
-    platforms = extract_platforms(setmap)
+    # Sort the platforms, so that the floating-point sum below does not
+    # depend on the iteration order of a set (i.e. on string hashing).
+    platforms = sorted(extract_platforms(setmap))
 
     d = 0
     npairs = 0
